@@ -59,8 +59,9 @@ POOLS = {
 def _plan(draw, max_len, narrow=True):
     # float32 / int32 columns (known finding R21) are explored in the thorough tier only: their kernels
     # double the JIT warm-up of the quick tier; the R21 witness replay runs in both tiers.
-    kind = draw(st.sampled_from(["f", "f", "f", "i", "i", "b", "d", "d", "t", "t"] + (["f32", "i32"] if narrow else [])))
-    h = draw(st.sampled_from(ALL if kind in ("f", "i", "b", "f32", "i32") else ORD))
+    h = draw(st.sampled_from(ALL))
+    numeric = ["f", "f", "f", "i", "i", "b"] + (["f32", "i32"] if narrow else [])
+    kind = draw(st.sampled_from(numeric + ["d", "d", "t", "t"] if h in ORD else numeric))
     n = draw(st.one_of(st.sampled_from([1, 2]), st.integers(1, max_len)))
     pool = POOLS[kind]
     if draw(st.booleans()):
@@ -71,7 +72,9 @@ def _plan(draw, max_len, narrow=True):
     if h not in ("all", "any") and draw(st.integers(0, 2)):
         args["drop_na"] = draw(st.booleans())
     if h == "nth":
-        args["index"] = draw(st.integers(-n - 2, n + 2))
+        sizes = sorted({groups.count(g) for g in set(groups)} | {n})
+        edges = [e for k in sizes for e in (-k - 1, -k, -1, 0, k - 1, k)]
+        args["index"] = draw(st.one_of(st.integers(-n - 2, n + 2), st.sampled_from(edges)))
     if h == "quantile":
         args["q"] = draw(st.sampled_from([0, 0.1, 0.25, 0.5, 0.9, 1]))
     if h in ("std", "var") and draw(st.integers(0, 3)) == 0:
